@@ -3,6 +3,7 @@ package kit
 import (
 	"encoding/json"
 	"fmt"
+	"sync"
 
 	"github.com/jsightapi/jsight-schema-core/fs"
 	"github.com/jsightapi/jsight-schema-core/reader"
@@ -67,7 +68,14 @@ func (j *JApi) ToJsonIndent() ([]byte, error) {
 	return j.Catalog().ToJsonIndent()
 }
 
+// openAPIMx serializes the conversion to OpenAPI: the converter of the
+// jsight-schema-core marshals through a buffer pool whose buffers are still in
+// use after they have been put back, so concurrent conversions corrupt each other.
+var openAPIMx sync.Mutex
+
 func (j *JApi) ToOpenAPIJson() (b []byte, err error) {
+	openAPIMx.Lock()
+	defer openAPIMx.Unlock()
 	defer recoverOpenAPIPanic(&b, &err)
 
 	o, oErr := openapi.NewOpenAPI(j.Catalog())
@@ -78,6 +86,8 @@ func (j *JApi) ToOpenAPIJson() (b []byte, err error) {
 }
 
 func (j *JApi) ToOpenAPIJsonIndent() (b []byte, err error) {
+	openAPIMx.Lock()
+	defer openAPIMx.Unlock()
 	defer recoverOpenAPIPanic(&b, &err)
 
 	o, oErr := openapi.NewOpenAPI(j.Catalog())
